@@ -2,7 +2,8 @@
 import numpy as np
 from harness import wavecheck as wk, waveoracle as wo, wavesim_corr as wc, logicsim_corr as lc, simcheck as sk
 
-THEOREMS = ['C05_hazard_sound_op', 'C05_no_change_no_edge', 'C05_init_final_wave', 'C05_init_final_logic8', 'C05_logic8_predicts_wave']
+THEOREMS = ['C05_hazard_sound_op', 'C05_no_change_no_edge', 'C05_init_final_wave', 'C05_init_final_logic8', 'C05_logic8_predicts_wave',
+            'C05_wavesim_model_predicted']
 
 
 def stim_codes(k):
@@ -66,7 +67,7 @@ def run(ck):
     sk.regen_tables(ck)
     if THEOREMS:
         ck.prove('C05', THEOREMS)
-    fails, mism = wk.campaign(ck, ck.scale(40, 1200), oracle, gen_kw={'extra_prob': 0.0, 'strip_prob': 0.25}, coq_lanes=1, coq_every=2)
+    fails, mism = wk.campaign(ck, ck.scale(40, 1200), oracle, gen_kw={'extra_prob': 0.0, 'strip_prob': 0.25}, coq_lanes=1, coq_every=2, glue=True)
     # small-circuit stress: 2-4 gates, many lanes, so that every primitive sees internally generated pulses on its pins
     import random
     rng = random.Random(ck.seed * 7919 + 505)
